@@ -20,8 +20,9 @@ DEAD = Outcome("dead")
 
 
 class Obligation:
-    def __init__(self, name, hyps, goal, kind, line=None, props=(), trace=(), func=None, finite=None):
+    def __init__(self, name, hyps, goal, kind, line=None, props=(), trace=(), func=None, finite=None, weak=()):
         self.name = name
+        self.weak = list(weak)
         self.hyps = list(hyps)
         self.goal = goal
         self.kind = kind
@@ -43,6 +44,7 @@ class State:
     """one path of the symbolic execution"""
 
     def __init__(self, ex):
+        self.weak = []
         self.ex = ex
         self.locals = {}
         self.heap = {}  # heap array key -> z3 array term (only arrays that differ from / were created after entry)
@@ -70,6 +72,7 @@ class State:
         s.fs = self.fs
         s.old = self.old
         s.dead = self.dead
+        s.weak = list(getattr(self, 'weak', ()))
         return s
 
     def assume(self, b):
